@@ -177,5 +177,38 @@ def control_heavy_domain(seed: int, count: int, nmin: int = 6, nmax: int = 9, po
     return out[:count]
 
 
+def giant_named() -> List[Dict[str, List[str]]]:
+    """Very long / very deep closed CFGs (long straight-line code after a branch, a loop with a long body, deeply nested ifs, a long
+    loop body with a branch in it): restructuring must not depend on the interpreter's recursion limit or blow up."""
+    out = []
+    g: Dict[str, List[str]] = {"0": ["1", "2"], "1": ["3"], "2": ["3"]}
+    for i in range(3, 3 + 1200):
+        g[str(i)] = [str(i + 1)]
+    g[str(3 + 1200)] = []
+    out.append(g)
+    g = {"0": ["1"]}
+    for i in range(1, 800):
+        g[str(i)] = [str(i + 1)]
+    g["800"] = ["1", "801"]
+    g["801"] = []
+    out.append(g)
+    d = 150
+    g = {}
+    for i in range(d):
+        g["c%d" % i] = ["c%d" % (i + 1), "j%d" % i]
+    g["c%d" % d] = ["j%d" % (d - 1)]
+    for i in range(d - 1, 0, -1):
+        g["j%d" % i] = ["j%d" % (i - 1)]
+    g["j0"] = []
+    out.append(g)
+    g = {"0": ["1"], "1": ["2", "3"], "2": ["4"], "3": ["4"]}
+    for i in range(4, 4 + 600):
+        g[str(i)] = [str(i + 1)]
+    g[str(4 + 600)] = ["1", "x"]
+    g["x"] = []
+    out.append(g)
+    return out
+
+
 def graph_to_named(g: Graph) -> Dict[str, List[str]]:
     return {str(u): [str(v) for v in g[u]] for u in range(len(g))}
